@@ -68,6 +68,9 @@ type C13Sc struct {
 	// Cluster: the client connects through DialClusterContext (same negotiation, other entry point):
 	// 1 = with WithRetryTimeout, 2 = without
 	Cluster int `json:"cluster,omitempty"`
+	// Discover: after the dial the client also sends a Discover Versions request of its own, alone and inside a
+	// batch (scripted server only): these are ordinary requests and carry the adopted version like any other
+	Discover bool `json:"discover,omitempty"`
 }
 
 type C13Second struct {
@@ -97,6 +100,7 @@ func genC13(g *simrt.Tape, tier string) any {
 	if g.Draw(4) == 0 {
 		sc.Cluster = 1 + g.Draw(2)
 	}
+	sc.Discover = g.Draw(3) == 0
 	sc.Chunk = []int{simnet.ChunkMax, simnet.ChunkRandom, simnet.ChunkByte}[g.Draw(3)]
 	if g.Draw(3) == 0 {
 		sc.StallPM = 100
@@ -115,7 +119,7 @@ func c13Grid(tier string) []*C13Sc {
 	for c := 1; c < 32; c++ {
 		for s := 0; s < 32; s++ {
 			for b := 0; b < nBehaviours; b++ {
-				out = append(out, &C13Sc{Client: c, Server: s, Beh: b, Enforce: -1, FollowUp: true, Clone: b == 0})
+				out = append(out, &C13Sc{Client: c, Server: s, Beh: b, Enforce: -1, FollowUp: true, Clone: b == 0, Discover: b == 0 || b == behUnsupported})
 			}
 			for o := 1; o <= 3; o++ {
 				out = append(out, &C13Sc{Client: c, Server: s, Beh: behPermuted, Order: o, Enforce: -1, FollowUp: true})
@@ -125,7 +129,7 @@ func c13Grid(tier string) []*C13Sc {
 		// enforced versions: no discovery at all
 		for e := 0; e < 5; e++ {
 			for _, b := range []int{behConformant, behUnsupported, behEmpty} {
-				out = append(out, &C13Sc{Client: c, Server: 31, Beh: b, Enforce: e, FollowUp: true, Clone: true})
+				out = append(out, &C13Sc{Client: c, Server: 31, Beh: b, Enforce: e, FollowUp: true, Clone: true, Discover: true})
 			}
 			out = append(out, &C13Sc{Client: c, Server: 0, Real: true, Enforce: e, FollowUp: true})
 		}
@@ -198,6 +202,7 @@ func execC13(x *X, scAny any) {
 	cset := setOf(sc.Client)
 	sset := setOf(sc.Server)
 	discoveries := 0
+	dialled, finished := false, false
 	var advertised []kmip.ProtocolVersion
 	var seen []kmip.ProtocolVersion // header versions of non-discovery requests
 
@@ -212,7 +217,7 @@ func execC13(x *X, scAny any) {
 	w := newClientWorld(x, csc)
 	w.loose = false
 	w.respond = func(w *clientWorld, req *kmip.RequestMessage, connIdx int) *kmip.ResponseMessage {
-		if len(req.BatchItem) == 1 {
+		if len(req.BatchItem) == 1 && !dialled {
 			if pl, ok := req.BatchItem[0].RequestPayload.(*payloads.DiscoverVersionsRequestPayload); ok {
 				discoveries++
 				resp := &kmip.ResponseMessage{Header: kmip.ResponseHeader{ProtocolVersion: req.Header.ProtocolVersion, TimeStamp: time.Now(), BatchCount: 1}}
@@ -295,7 +300,6 @@ func execC13(x *X, scAny any) {
 	second := &c13Second{}
 	var cl *kmipclient.Client
 	var dialErr error
-	dialled, finished := false, false
 	var followErr, cloneErr error
 	var cloneVersion kmip.ProtocolVersion
 	nFollow := 0
@@ -331,6 +335,15 @@ func execC13(x *X, scAny any) {
 							break
 						}
 					}
+				}
+			}
+			if sc.Discover && !sc.Real && followErr == nil && !sc.Reconnect {
+				nFollow += 2
+				if _, err := cl.Request(context.Background(), &payloads.DiscoverVersionsRequestPayload{}); err != nil {
+					followErr = err
+				}
+				if _, err := cl.Batch(context.Background(), &payloads.ActivateRequestPayload{UniqueIdentifier: "in-batch"}, &payloads.DiscoverVersionsRequestPayload{}); err != nil && followErr == nil {
+					followErr = err
 				}
 			}
 			if sc.Clone {
